@@ -33,8 +33,13 @@ DOK(line) == \A i \in DOMAIN line.steps : IsVerify(line, i) =>
                 /\ OkOrFail(line.steps[i].res) = OkOrFail(line.steps[i].twin)
                 /\ line.steps[i].tip = line.steps[i].twinTip
                 /\ ~line.steps[i].refsMoved
-Explains(line, d) == LET run == Run(W0, Acts(line), d) IN
-                     \A i \in DOMAIN run : IsVerify(line, i) => OkOrFail(run[i].res) = OkOrFail(line.steps[i].res)
+\* the model with deviations d predicts both what the repository with the cache answered and what the cache-less copy answered
+WorldBefore(run, i) == IF i = 1 THEN W0 ELSE run[i - 1].w
+Explains(line, d) == LET run == Run(W0, Acts(line), d) acts == Acts(line) IN
+                     \A i \in DOMAIN run : IsVerify(line, i) =>
+                        /\ OkOrFail(run[i].res) = OkOrFail(line.steps[i].res)
+                        /\ OkOrFail(line.steps[i].twin) = OkOrFail(IF acts[i].mode = "full" THEN Impl(WorldBefore(run, i).log, acts[i].ref, d)
+                                                                   ELSE ImplLatest(WorldBefore(run, i).log, acts[i].ref, d))
 
 Classify(line) ==
     IF DOK(line) THEN (IF Explains(line, AsBuilt) \/ Explains(line, {}) THEN [cls |-> "conform"] ELSE [cls |-> "safe", why |-> "verdicts differ from the model's"])
